@@ -231,6 +231,19 @@ def c06():
         out.append(R(t2, {"output": {1: "", 2: "B", 3: "E"}[target]}, {"x": target}, "an empty matching arm renders nothing, not a later arm"))
         t3 = "{% case x %}{% when 1 %}{% else %}E{% endcase %}|"
         out.append(R(t3, {"output": {1: "|", 2: "E|", 3: "E|"}[target]}, {"x": target}, "an empty matching arm beats else"))
+    # anything between `case` and the first `when` is discarded, whichever arm fires
+    for target in (1, 2, 3):
+        t = "{% case x %} junk {% assign leaked = 'L' %}{% when 1 %}A{% when 2 %}B{% else %}E{% endcase %}[{% if leaked %}L{% else %}-{% endif %}]"
+        out.append(R(t, {"output": {1: "A", 2: "B", 3: "E"}[target] + "[-]"}, {"x": target}, "content before the first when is not rendered"))
+    # nil / empty string / empty array / blank string against the empty and blank literals, in every operand order, and in case/when
+    eb = {"n": None, "es": "", "sp": " ", "ea": [], "eo": {}, "s": "a", "z": 0, "f": False}
+    exp_empty = {"n": True, "es": True, "sp": False, "ea": True, "eo": True, "s": False, "z": False, "f": False}
+    exp_blank = {"n": True, "es": True, "sp": True, "ea": True, "eo": True, "s": False, "z": False, "f": True}
+    for x in eb:
+        for lit, table in (("empty", exp_empty), ("blank", exp_blank)):
+            e = "1" if table[x] else "0"
+            out.append(R("{% if X == L %}1{% else %}0{% endif %}{% if L == X %}1{% else %}0{% endif %}{% if X != L %}0{% else %}1{% endif %}".replace("X", x).replace("L", lit), {"output": e * 3}, eb, "comparison against " + lit))
+            out.append(R("{% case X %}{% when L %}1{% else %}0{% endcase %}".replace("X", x).replace("L", lit), {"output": e}, eb, "case/when against " + lit))
     # `x or y and z` groups as `x or (y and z)`
     for x, y, z in itertools.product((True, False), repeat=3):
         t = "{% if X or Y and Z %}1{% else %}0{% endif %}".replace("X", "t" if x else "f").replace("Y", "t" if y else "f").replace("Z", "t" if z else "f")
@@ -487,6 +500,11 @@ def c10():
         ("{% for i in (1..3) %}{% ifchanged %}{{ i }}{% continue %}{% endifchanged %}tail{% endfor %}.", {}),
         ("{% for j in (1..2) %}{% tablerow i in (1..3) cols:2 %}c{{ i }}{% if i == 2 %}{% break %}{% endif %}{% endtablerow %}|{% endfor %}end", {}),
         ("{% for i in (1..4) %}{% if i == 2 %}{% continue %}{% endif %}{% if i == 4 %}{% break %}{% endif %}<{{ i }}>{% endfor %}done", {}),
+        # one output tag that reaches the sink in several writes (an array prints element by element), nested arrays, objects
+        ("[{{ items }}]{{ 'a,b,c' | split: ',' }}|{{ nested }}{{ o }}", {"items": ["x", "y", "z", "w"], "nested": [[1, 2], [3]], "o": {"k": "v"}}),
+        # a long non-ASCII literal text (an error path that cuts the text by bytes would split a character)
+        ("Στοιχείο καταλόγου αριθμός {{ x }} – ολοκληρώθηκε με επιτυχία, ευχαριστούμε πολύ", {"x": 1}),
+        ("日本語のテキストがここに長く続きます、そして {{ x }} 最後まで", {"x": 2}),
     ]
     out = [{"kind": "sink_faults", "template": t, "data": d} for t, d in tpls]
     out.append({"kind": "sink_faults", "template": "before {% include 'p' %} middle {% render 'p' %} after", "data": {"x": 1}, "partials": {"p": "partial text {{ x }}"}})
